@@ -27,9 +27,6 @@ ASSUMPTIONS = [
     "belongs to C10/C11",
 ]
 UNPROVED = [
-    "end-to-end invariance of chord.evaluate through adjust_intervals when the cut estimate interval is cropped "
-    "(proved: invariance of the merged, duration-weighted score for aligned annotations, of merge_chord_intervals, "
-    "of labelAt and of the frame sampling; the composition with cropping is covered by the oracle)",
     "frame-based segment metrics and hierarchy.lmeasure are functions of the frame labels only (their models "
     "belong to C16/C17; here: samples_split_invariant + refinement oracle)",
     "the T-measure's lca is not label-based and is not claimed",
@@ -207,6 +204,13 @@ def suite_evaluate(rng, tier, shard, nshards):
             rt = [rng.choice([-2, -1, 0, 0, 2, 7]) for _ in ri]
             et = [rng.choice([-1, 0, 0, 2, 7]) for _ in ei]
             tag = "free"
+            if ei and rng.random() < 0.5:
+                # the shapes evaluate_split_est speaks about: estimate rows cut at lattice points that may fall
+                # before, inside or after the reference span (the cut row is then cropped by adjust_intervals)
+                cuts = [Fr(rng.randint(0, 64), 32) for _ in range(rng.randint(1, 4))] + [ri[0][0], ri[-1][1]]
+                ei, et = refine(ei, et, cuts)
+                ei = [tuple(r) for r in ei]
+                tag = "free-cut"
         yield Case("chord.evaluate_tokens", [[[s, e] for s, e in ri], rt, [[s, e] for s, e in ei], et],
                    lambda ri=ri, rt=rt, ei=ei, et=et: _py_evaluate(ri, rt, ei, et),
                    tol=1e-9, tag=tag, info={"ref": [[F(s), F(e)] for s, e in ri], "rt": rt,
